@@ -72,7 +72,7 @@ pub fn main(args: &[String]) -> i32 {
         });
         match res {
             Ok(s) => println!("{s}"),
-            Err(_) => println!("PANIC"),
+            Err(e) => println!("{}", crate::util::panic_name(&e)),
         }
     }
     0
